@@ -51,6 +51,10 @@ void sim::engine_writers(RunCtx& cx) {
         }
         ops.push_back(op);
     }
+    // 1 run in 4: one write call on the destination that is open at op `fault_op` is refused once (EIO). The writer must report it
+    // (its write() or the next rotate_output() throws); outputs opened afterwards must hold exactly what is written to them.
+    bool with_fault = r.chance(1, 4);
+    unsigned fault_op = (unsigned)r.below(n);
     cx.n_ops = n;
     const char* ext = comp == 1 ? ".gz" : comp == 2 ? ".xz" : "";
     cx.tag(comp == 0 ? "plain" : comp == 1 ? "gzip" : "xz");
@@ -74,9 +78,41 @@ void sim::engine_writers(RunCtx& cx) {
             if (comp == 0) w.reset(new CDNS::CborOutputWriter(nm)); else if (comp == 1) w.reset(new CDNS::GzipCborOutputWriter(nm)); else w.reset(new CDNS::XzCborOutputWriter(nm));
         }
         next_out = 1;
+        bool fault_armed = false, lossy = false;
         for (unsigned i = 0; i < n; i++) {
             if (!cx.kept(i)) continue;
             const WOp& op = ops[i];
+            if (with_fault && i == fault_op && !fault_armed) {
+                fault_armed = true;
+                simfs::WFault wf;
+                wf.kind = simfs::WFault::EIO_;
+                wf.dest = fd ? "fd:w" + std::to_string(next_out - 1) : "/sim/w" + std::to_string(next_out - 1) + ext + ".part";
+                unsigned calls = 0;
+                for (auto& kv : F.open_files) if (kv.second.path == wf.dest) calls = kv.second.wcalls;
+                wf.k = calls + 1 + (unsigned)(op.seed % 3);
+                F.wfaults.push_back(wf);
+                cx.tag("write-fault");
+            }
+            if (fault_armed) {
+                // from the fault on, calls may throw (that is the report); what matters is the content of later outputs
+                try {
+                    if (op.rotate) {
+                        if (fd) { int d = F.make_fd("w" + std::to_string(next_out)); w->rotate_output(d); } else w->rotate_output(std::string("/sim/w" + std::to_string(next_out)));
+                    } else { std::string c = chunk(op); w->write(c.data(), c.size()); cur_expect += c; }
+                } catch (std::exception& e) {
+                    cx.log.ev(std::string("THREW ") + e.what());
+                    lossy = true;   // the output that was open during this call is not judged
+                }
+                if (op.rotate) {
+                    bool this_lossy = lossy || (!F.wfaults.empty() && F.wfaults[0].fired);
+                    if (!this_lossy) outputs.push_back({out_name(next_out - 1), cur_expect});   // untouched by the fault: must be exact
+                    cur_expect.clear();
+                    next_out++;
+                    lossy = false;
+                    if (!F.wfaults.empty() && F.wfaults[0].fired) F.wfaults.clear();
+                }
+                continue;
+            }
             if (op.rotate) {
                 cx.log.ev("ROTATE");
                 if (cx.describe) cx.description += "rotate; ";
@@ -99,7 +135,9 @@ void sim::engine_writers(RunCtx& cx) {
         }
         cx.log.ev("DESTROY");
         w.reset();
-        outputs.push_back({out_name(next_out - 1), cur_expect});
+        bool last_lossy = lossy || (!F.wfaults.empty() && F.wfaults[0].fired);   // (the fault may fire only now, in the closing flush)
+        if (!last_lossy) outputs.push_back({out_name(next_out - 1), cur_expect});
+        F.wfaults.clear();
     } catch (std::exception& e) {
         cx.violation("C14", "C14/I13/unexpected-exception", std::string("fault-free writer run threw: ") + e.what());
         w.reset();
